@@ -700,6 +700,19 @@ def der_encode(value: object) -> bytes:
 def der_decode_partial(data: bytes) -> Tuple[object, int]:
     """Decode a value in DER format and return the number of bytes consumed"""
 
+    try:
+        return _der_decode_partial(data)
+    except ASN1DecodeError:
+        raise
+    except (RecursionError, ValueError) as exc:
+        # too deeply nested, or content a type constructor rejects
+        # (invalid UTF-8, bad unused-bit count, oversized OID component)
+        raise ASN1DecodeError(f'Invalid DER data: {exc}') from None
+
+
+def _der_decode_partial(data: bytes) -> Tuple[object, int]:
+    """Decode a value in DER format and return the number of bytes consumed"""
+
     if len(data) < 2:
         raise ASN1DecodeError('Incomplete data')
 
